@@ -135,7 +135,7 @@ func loadVerdictPool(rec *verdictRec) (*verdictEnv, error) {
 			return nil, rejectedErr("pool rule %q rejected: %v", t, err)
 		}
 		if err = checkRendered(&rec.Main[i], r); err != nil {
-			return nil, fmt.Errorf("renderer self-check %q: %v", t, err)
+			return nil, rejectedErr("the rule %q is parsed differently from what the specification says: %v", t, err)
 		}
 		if seen[t] {
 			return nil, fmt.Errorf("pool text %q twice", t)
